@@ -153,7 +153,7 @@ def run(ctx, quick):
     byid = {c_["id"]: c_ for c_ in cases}
     for i, clause in sorted(rej.items()):
         c_ = byid[i]
-        ctx.violation("priority_dict/%s/%s" % (c_["src"], clause), "priority_dict history (%s) %s: %s" %
+        ctx.growth("priority_dict/%s/%s" % (c_["src"], clause), "priority_dict history (%s) %s: %s" %
                       (c_["src"], [(s["op"], s["k"], s["v"], s["res"]) for s in c_["steps"]], clause), c_)
     ctx.extra["priority_queue_histories"] = {"routing": sum(1 for c_ in cases if c_["src"] == "routing"),
                                              "direct": sum(1 for c_ in cases if c_["src"] == "direct"),
@@ -229,6 +229,6 @@ def run_topo(ctx, quick):
     byid = {c_["id"]: c_ for c_ in cases}
     for i, clause in sorted(rej.items()):
         c_ = byid[i]
-        ctx.violation("network-topology/%s" % clause, "Network history %s: %s" %
+        ctx.growth("network-topology/%s" % clause, "Network history %s: %s" %
                       ([(s["op"], s["v"] or (s["id"], s["s"], s["t"], s["o"])) for s in c_["steps"]], clause), c_)
     ctx.extra["network_topology_histories"] = len(cases)
